@@ -1,7 +1,7 @@
 //! C10: the dump on disk is always a complete, loadable snapshot.
 //! (1) crash points: a save that cannot even open its temporary file leaves the dump untouched
-//!     (reachable without a hook: BLOCKSAVE); failing the n-th write needs
-//!     patches/hook-rdb-failat.diff (op FAILAT, compiled only with --cfg ferrous_verif_rdb_failat).
+//!     (BLOCKSAVE); every write call of a save fails in turn through the hook
+//!     storage::rdb::verif (FAILSWEEP).
 //! (3) damaged input: every prefix and single-byte corruption of valid dumps (SWEEP) and crafted
 //!     files (PUTFILE + PROBE), loaded in-process under catch_unwind with the counting allocator.
 //! The runner and the op vocabulary are shared with C09 (c09.rs, coq/Model/RunRdb.v).
@@ -118,15 +118,15 @@ pub fn gen(seed: u64, n: usize, tier: &str) -> Vec<Case> {
         let ops = vec![opv("PUTFILE", vec![bv(&bytes)]), op_t("PROBE"), op_t("DUMP")];
         cases.push(Case { id: format!("crafted-{}", name), ops, outs: vec![] });
     }
-    // known classes
+    // regression cases of the repaired classes rdb-alloc (43b3590) and rdb-fieldcount-overflow (bcfe7be)
     {
         let hdr: &[u8] = b"REDIS0009";
         let b1 = cat(&[hdr, &[0], &[0x80, 0x10, 0, 0, 0], b"abc"]);
-        cases.push(Case { id: "class-rdb-alloc".into(), ops: vec![opv("PUTFILE", vec![bv(&b1)]), op_t("PROBE"), op_t("DUMP")], outs: vec![] });
+        cases.push(Case { id: "regress-rdb-alloc".into(), ops: vec![opv("PUTFILE", vec![bv(&b1)]), op_t("PROBE"), op_t("DUMP")], outs: vec![] });
         let b2 = cat(&[hdr, &[0xfe, 0, 1], &ws(b"s"), &wl(6), &ws(MARKER), &ws(b"1-1"), &ws(b"9223372036854775808"), &ws(b"f"), &ws(b"v"), &ws(b"x"), &[0xff, 0, 0, 0, 0, 0, 0, 0, 0]]);
-        cases.push(Case { id: "class-rdb-fieldcount-overflow".into(), ops: vec![opv("PUTFILE", vec![bv(&b2)]), op_t("PROBE"), op_t("DUMP")], outs: vec![] });
+        cases.push(Case { id: "regress-rdb-fieldcount-overflow".into(), ops: vec![opv("PUTFILE", vec![bv(&b2)]), op_t("PROBE"), op_t("DUMP")], outs: vec![] });
         let b3 = cat(&[hdr, &[0xfe, 0, 1], &ws(b"s"), &wl(6), &ws(MARKER), &ws(b"1-1"), &ws(b"18446744073709551615"), &ws(b"f"), &ws(b"v"), &ws(b"x"), &[0xff, 0, 0, 0, 0, 0, 0, 0, 0]]);
-        cases.push(Case { id: "class-rdb-fieldcount-overflow-b".into(), ops: vec![opv("PUTFILE", vec![bv(&b3)]), op_t("PROBE"), op_t("DUMP")], outs: vec![] });
+        cases.push(Case { id: "regress-rdb-fieldcount-overflow-b".into(), ops: vec![opv("PUTFILE", vec![bv(&b3)]), op_t("PROBE"), op_t("DUMP")], outs: vec![] });
     }
     // a save whose temporary file cannot be opened leaves the previous dump untouched; a later save works
     for v in 0..2 {
@@ -149,6 +149,21 @@ pub fn gen(seed: u64, n: usize, tier: &str) -> Vec<Case> {
             ops.push(op_t("FAILSWEEP")); ops.push(op_t("DUMP"));
             cases.push(Case { id: format!("failat-{}", v), ops, outs: vec![] });
         }
+        for v in 0..4 {
+            let mut ops = vec![];
+            small_dataset(&mut r, &mut ops, false);
+            ops.push(op_t("BGSWEEP")); ops.push(op_t("DUMP"));
+            cases.push(Case { id: format!("bgsave-{}", v), ops, outs: vec![] });
+        }
+    }
+    // (2) saves racing with a writer on one key and one sorted set: regression soak for the repaired
+    // classes value-ttl-tear (880a648) and zset-len-tear (e63a0b6); thorough tier only
+    if thorough {
+        let mut ops = vec![];
+        small_dataset(&mut r, &mut ops, false);
+        ops.push(opv("TEARSTRESS", vec![i(if thorough { 3000 } else { 400 })]));
+        ops.push(op_t("DUMP"));
+        cases.push(Case { id: "tear-0".into(), ops, outs: vec![] });
     }
     // every prefix and single-byte corruption of valid dumps written by the implementation / by the model
     let mut k = 0;
@@ -177,18 +192,31 @@ pub fn judge(c: &Case, outs: &[Vec<Tok>]) -> Vec<String> {
             b"PROBE" => {
                 let st = tok_int(&out[0]);
                 if st & 3 == 2 { fails.push(format!("FAIL case={} op={}{} the loader panicked on a damaged file", c.id, k, cls(""))); }
-                if st & 4 != 0 { fails.push(format!("FAIL case={} op={}{} the loader asked for an allocation far beyond the file length", c.id, k, cls("rdb-alloc"))); }
+                if st & 4 != 0 { fails.push(format!("FAIL case={} op={}{} the loader asked for an allocation far beyond the file length", c.id, k, cls(""))); }
             }
             b"SWEEP" => {
                 let n = tok_int(&out[0]) as usize;
                 let (mut panics, mut bigs) = (0, 0);
                 for v in 0..n { let st = tok_int(&out[1 + 2 * v]); if st & 3 == 2 { panics += 1; } if st & 4 != 0 { bigs += 1; } }
                 if panics > 0 { fails.push(format!("FAIL case={} op={}{} the loader panicked on {} of {} damaged variants", c.id, k, cls(""), panics, n)); }
-                if bigs > 0 { fails.push(format!("FAIL case={} op={}{} allocation far beyond the file length on {} of {} damaged variants", c.id, k, cls("rdb-alloc"), bigs, n)); }
+                if bigs > 0 { fails.push(format!("FAIL case={} op={}{} allocation far beyond the file length on {} of {} damaged variants", c.id, k, cls(""), bigs, n)); }
             }
             b"FAILSWEEP" => {
                 if out.len() == 4 && (out[1] != i(1) || out[2] != i(1) || out[3] != i(1)) {
                     fails.push(format!("FAIL case={} op={} failing each of the {:?} write calls of a save: all reported failure {:?}, dump unchanged {:?}, later save ok {:?}", c.id, k, out[0], out[1], out[2], out[3]));
+                }
+            }
+            b"TEARSTRESS" => {
+                if op.len() >= 5 && tok_int(&op[3]) > 0 {
+                    fails.push(format!("FAIL case={} op={} {} of {} snapshots taken while a client flipped the key between (old, no TTL) and (new, TTL) hold a (value, TTL) pair the key never had", c.id, k, tok_int(&op[3]), tok_int(&op[4])));
+                }
+                if op.len() >= 6 && tok_int(&op[5]) > 0 {
+                    fails.push(format!("FAIL case={} op={} {} snapshots taken while a client added/removed a sorted-set member do not load as written (member count written before the items are read)", c.id, k, tok_int(&op[5])));
+                }
+            }
+            b"BGSWEEP" => {
+                if out.len() == 7 && out[1..].iter().any(|x| x != &i(1)) {
+                    fails.push(format!("FAIL case={} op={} background saves with an injected write failure: accepted {:?}, flag cleared {:?}, dump unchanged {:?}, later bgsave accepted {:?}, newer data published {:?}, save/bgsave mixes {:?}", c.id, k, out[1], out[2], out[3], out[4], out[5], out[6]));
                 }
             }
             b"BLOCKSAVE" => {
